@@ -596,6 +596,60 @@ pub open spec fn tlv16_ok(items: Seq<(u16, Seq<u8>)>) -> bool {
 // ======================================================================== <character-string>
 pub open spec fn cs_enc(s: Seq<u8>) -> Seq<u8> { seq![s.len() as u8] + s }
 
+/// character-strings decoded back-to-back from q0, ending exactly at q (RFC 1035 3.3.14 TXT-DATA)
+pub open spec fn lv8(data: Seq<u8>, q0: int, items: Seq<Seq<u8>>, q: int) -> bool
+    decreases items.len()
+{
+    if items.len() == 0 { q == q0 } else {
+        let it = items.last();
+        let qm = q - 1 - it.len();
+        &&& lv8(data, q0, items.drop_last(), qm)
+        &&& q0 <= qm && q <= data.len()
+        &&& data[qm] == it.len()
+        &&& it == data.subrange(qm + 1, q)
+    }
+}
+pub open spec fn lv8_enc(items: Seq<Seq<u8>>) -> Seq<u8>
+    decreases items.len()
+{
+    if items.len() == 0 { Seq::empty() } else { lv8_enc(items.drop_last()) + cs_enc(items.last()) }
+}
+pub open spec fn lv8_ok(items: Seq<Seq<u8>>) -> bool { forall|i: int| 0 <= i < items.len() ==> (#[trigger] items[i]).len() <= 255 }
+pub proof fn lemma_lv8_dec_len(data: Seq<u8>, q0: int, items: Seq<Seq<u8>>, q: int)
+    requires lv8(data, q0, items, q)
+    ensures lv8_enc(items).len() == q - q0, lv8_ok(items)
+    decreases items.len()
+{
+    if items.len() > 0 {
+        let it = items.last();
+        lemma_lv8_dec_len(data, q0, items.drop_last(), q - 1 - it.len());
+        assert forall|i: int| 0 <= i < items.len() implies (#[trigger] items[i]).len() <= 255 by {
+            if i < items.len() - 1 { assert(items[i] == items.drop_last()[i]); }
+        }
+    }
+}
+
+/// NSEC type bit maps (RFC 4034 4.1.2): window(1) length(1) bitmap(length), back-to-back from q0 to q
+pub open spec fn wl8(data: Seq<u8>, q0: int, items: Seq<(u8, Seq<u8>)>, q: int) -> bool
+    decreases items.len()
+{
+    if items.len() == 0 { q == q0 } else {
+        let it = items.last();
+        let qm = q - 2 - it.1.len();
+        &&& wl8(data, q0, items.drop_last(), qm)
+        &&& q0 <= qm && q <= data.len()
+        &&& data[qm] == it.0
+        &&& data[qm + 1] == it.1.len()
+        &&& it.1 == data.subrange(qm + 2, q)
+    }
+}
+pub open spec fn strictly_increasing_u8(items: Seq<(u8, Seq<u8>)>) -> bool {
+    forall|i: int, j: int| 0 <= i < j < items.len() ==> (#[trigger] items[i]).0 < (#[trigger] items[j]).0
+}
+pub open spec fn strictly_increasing_u16(items: Seq<(u16, Seq<u8>)>) -> bool {
+    forall|i: int, j: int| 0 <= i < j < items.len() ==> (#[trigger] items[i]).0 < (#[trigger] items[j]).0
+}
+
 // ======================================================================== misc std specs
 pub assume_specification<T, F: FnOnce(T) -> bool> [Option::<T>::is_some_and] (o: Option<T>, f: F) -> (r: bool)
     ensures o is None ==> !r,
